@@ -192,16 +192,24 @@ fn gen_op(rng: &mut Rng, st: &St, last_split: &mut Option<(usize, usize)>, wild:
         H::V(_) => if rng.chance(2, 3) { format!("vbytes:{}", i) } else { format!("vdrop:{}", i) },
     }
 }
-pub fn heap_random(out: &mut dyn Write, seed: u64, n: usize, odd: bool, wild_pct: u64, maxops: u64) {
+pub fn heap_random(out: &mut dyn Write, seed: u64, n: usize, odd: bool, wild_pct: u64, maxops: u64) { heap_random_mode(out, seed, n, odd, wild_pct, maxops, false) }
+/// arena = true: byte buffers are adjacent in memory (ledger arena mode); a third of the histories start with two full, shared BytesMut
+/// on two adjacent buffers and an unsplit of the first with the second
+pub fn heap_random_mode(out: &mut dyn Write, seed: u64, n: usize, odd: bool, wild_pct: u64, maxops: u64, arena: bool) {
     let mut rng = Rng::new(seed ^ 0x4ea9);
+    ledger::ARENA.store(arena, std::sync::atomic::Ordering::Relaxed);
     for _ in 0..n {
         ledger::reset(odd);
         let mut st = St { hs: vec![None], next_owner: 1 };           // handle ids start at 1
-        let mut o = format!("E1 odd={}", odd as u8);
+        let mut o = format!("{} odd={}", if arena { "E1A" } else { "E1" }, odd as u8);
         let nops = rng.range(3, maxops);
         let wild = rng.below(100) < wild_pct;
         let mut last_split = None;
         crate::progress(&o);
+        if arena && rng.chance(1, 3) {
+            let sz = *rng.pick(&[2usize, 8, 16, 64]); let d1 = rng.bytes(sz); let d2 = rng.bytes(sz);
+            for op in [format!("mslice:{}", hex(&d1)), format!("mslice:{}", hex(&d2)), format!("msplitoff:1:{}", sz), format!("msplitoff:2:{}", sz), "mdrop:3".to_string(), "mdrop:4".to_string(), "munsplit:1:2".to_string()] { step(&mut st, &op, &mut o); }
+        }
         for _ in 0..nops {
             let op = gen_op(&mut rng, &st, &mut last_split, wild);
             step(&mut st, &op, &mut o);
@@ -210,6 +218,7 @@ pub fn heap_random(out: &mut dyn Write, seed: u64, n: usize, odd: bool, wild_pct
         writeln!(out, "{}", o).unwrap(); out.flush().unwrap();
     }
     ledger::reset(false);
+    ledger::ARENA.store(false, std::sync::atomic::Ordering::Relaxed);
 }
 pub fn heap_replay(out: &mut dyn Write) {
     use std::io::BufRead;
